@@ -87,3 +87,9 @@ reg("C24", "model_checking",
     "IEEE rounding is NOT modelled: float vectors whose exact result is not a binary32 normal number have no expected value and are only compared interpreter-vs-compiled. Not specified: ORD; MATCH beyond the c . c* .* fragment; "
     "to_number/to_unsigned/to_float on non-canonical text; NaN sign. Undefined cases are excluded by the spec's domain predicate and never run. Trusted: TLC, the C++ compiler, libm exactness on exactly representable results, the python renderer/decoder of values.",
     "DESIGN.md 9 C24")
+reg("C19", "model_checking",
+    "TLA+ proof-tree validity predicate (spec/Provenance.tla: ValidTree/QueryVerdict over Datalog.tla's model, Functors.tla for constraints) evaluated by TLC (spec/JudgeProof.tla) on every answer of real `souffle -t explain` sessions (interpreter + compiled sample); outputs with/without provenance compared with TLC's model (MC_Datalog)",
+    "TLC computes the model and judges each real proof tree (every node instantiates the cited rule, children match the instantiated body as a multiset, negated atoms absent from the model, constraints true, leaves are facts) "
+    "and each not-found answer for absent tuples; outputs with and without -t explain must equal the model.",
+    "Programs come from a seeded generator restricted to the provenance fragment (atoms, negation, constraints, functors, eqrel, facts, recursion; no aggregates/range/records/ADTs); cited rules are the printed post-transformation rules, "
+    "additionally checked sound against the source program's model. Trusted: TLC, the parser of explain's printed rules (syntax only).", "DESIGN.md 9 C19")
